@@ -13,6 +13,7 @@ static CHECK: OnceLock<Box<dyn Check>> = OnceLock::new();
 fuzz_target!(|data: &[u8]| {
     let check = CHECK.get_or_init(|| {
         let id = std::env::var("VERIF_FUZZ_PROP").unwrap_or_else(|_| "C07".to_string());
+        std::env::set_var("VERIF_GEN_NO_NAMED", "1");
         vh::run::install_panic_hook();
         vh::checks::by_id(&id).expect("unknown property")
     });
